@@ -15,7 +15,7 @@ from ..decide import outcomes
 from ..effects import Effects
 from ..fold import Inst, is_unknown
 from ..spec import tables as T
-from .common import (find_local, JWE_CONSUME, JWE_PRODUCE, JWS_CONSUME, JWS_PRODUCE, can_reach_exit, const_value, entries, is_const, scope_of,
+from .common import (resolve_all, find_local, JWE_CONSUME, JWE_PRODUCE, JWS_CONSUME, JWS_PRODUCE, can_reach_exit, const_value, entries, is_const, scope_of,
                      succ_by_label)
 from .c05 import _resolve_local
 
@@ -70,7 +70,7 @@ def r14_1(ctx) -> None:
     ctx.count("R14.1", n, 2, "return paths of get_by_kid")
 
 
-def r14_2(ctx) -> None:
+def r14_2(ctx, rule: str = "R14.2") -> None:
     eng = ctx.eng
     P = eng.prog
     gk = P.func("jwk:guess_key")
@@ -81,7 +81,7 @@ def r14_2(ctx) -> None:
     kidv = find_local(eng, gk, lambda t: t == f"{op}.headers().get('kid')")
     kd = [d for d in eng.flow._defs(gk).get(kidv, []) if d[0] == "assign"]
     ok_kid = len(kd) == 1 and _resolve_local(eng, gk, kd[0][1]) == f"{op}.headers().get('kid')"
-    ctx.check(ok_kid, "R14.2", gk, gk.node, f"{gk.short} :: kid source", "the kid used for key selection is not the token's (merged) header kid", "kid = obj.headers().get('kid')", construct="kid source")
+    ctx.check(ok_kid, rule, gk, gk.node, f"{gk.short} :: kid source", "the kid used for key selection is not the token's (merged) header kid", "kid = obj.headers().get('kid')", construct="kid source")
     ks = P.cls(KS)
     pr = ks.methods["pick_random_key"]
     gb = ks.methods["get_by_kid"]
@@ -102,8 +102,24 @@ def r14_2(ctx) -> None:
             # with a kid present the lookup is by kid
             r3 = cfg.reachable(cfg.entry, edge_filter=lambda a, b, l: not (a in tk and l == "false"))
             ok = ok and gn in r3 and norm(gets[0].node.args[0]) == kidv
-    ctx.check(ok, "R14.2", gk, gk.node, f"{gk.short} :: selection", "a random key is picked although the header names a kid (or without use_random), or the kid lookup does not use the header kid",
+    ctx.check(ok, rule, gk, gk.node, f"{gk.short} :: selection", "a random key is picked although the header names a kid (or without use_random), or the kid lookup does not use the header kid",
               "pick_random_key iff use_random and not kid; otherwise get_by_kid(kid)", construct="guess_key selection")
+    # every value the function can return is the key itself, the kid lookup or the random pick - no other route into the set
+    rets_ = [r.ast.value for r in cfg.returns() if r.ast.value is not None]
+    routes_ok = bool(rets_)
+    bad_route = ""
+    for rv_ in rets_:
+        for txt in resolve_all(eng, gk, rv_):
+            if ".get_by_kid(" in txt and txt.endswith(f"({op}.headers().get('kid'))"):
+                continue
+            if ".pick_random_key(" in txt:
+                continue
+            if txt in (f"_normalize_key({gk.pos_params[0]})", f"_normalize_key({gk.pos_params[0]}({op}))"):
+                continue
+            routes_ok = False
+            bad_route = txt
+    ctx.check(routes_ok, rule, gk, gk.node, f"{gk.short} :: routes into the key set", f"guess_key can return `{bad_route[:80]}`: a key taken from the set neither by get_by_kid(header kid) nor by "
+              "pick_random_key - the kid rule and the kid write-back do not apply to it", "key | set.get_by_kid(kid) | set.pick_random_key(alg)", construct="guess_key routes")
     # after the random pick: ensure_kid and write-back
     if picks:
         pn = cfg.node_of(picks[0].node)
@@ -114,7 +130,7 @@ def r14_2(ctx) -> None:
             rets = [r for r in cfg.returns() if pn in [x for x in cfg.nodes if r in cfg.reachable(x)] and r in cfg.reachable(pn)]
             skn = [cfg.node_of(s.node) for s in sk]
             okw = all(cfg.must_pass(pn, r, [e for e in eks if e is not None]) and cfg.must_pass(pn, r, [x for x in skn if x is not None]) for r in rets)
-        ctx.check(okw, "R14.2", gk, gk.node, f"{gk.short} :: kid write-back", "after a random pick the key's kid is not ensured and recorded in the token header on every path",
+        ctx.check(okw, rule, gk, gk.node, f"{gk.short} :: kid write-back", "after a random pick the key's kid is not ensured and recorded in the token header on every path",
                   "rv_key.ensure_kid(); obj.set_kid(rv_key.kid)", construct="kid write-back")
     # call sites: consume entries never ask for a random key, produce entries always do
     cons: Set[FunctionInfo] = set()
@@ -133,14 +149,14 @@ def r14_2(ctx) -> None:
         is_p = owner in prod and owner not in cons
         n += 1
         if is_c:
-            ctx.check(a is None or is_const(a, False), "R14.2", s.fn, s.node, f"{s.fn.short} :: {norm(s.node)[:50]}", "a consuming operation may pick a random key from the set instead of the one named by kid",
+            ctx.check(a is None or is_const(a, False), rule, s.fn, s.node, f"{s.fn.short} :: {norm(s.node)[:50]}", "a consuming operation may pick a random key from the set instead of the one named by kid",
                       "use_random absent / False", construct=f"use_random at consume site {s.fn.short}")
         elif is_p:
-            ctx.check(a is not None and is_const(a, True), "R14.2", s.fn, s.node, f"{s.fn.short} :: {norm(s.node)[:50]}", "a producing operation does not allow choosing a key from the set when no kid is given",
+            ctx.check(a is not None and is_const(a, True), rule, s.fn, s.node, f"{s.fn.short} :: {norm(s.node)[:50]}", "a producing operation does not allow choosing a key from the set when no kid is given",
                       "use_random=True", construct=f"use_random at produce site {s.fn.short}")
         else:
-            ctx.fail("R14.2", s.fn, s.node, "guess_key is called from a function shared by producing and consuming operations: use_random cannot be decided", construct=f"shared guess_key site {s.fn.short}")
-    ctx.count("R14.2", n, 12, "guess_key call sites")
+            ctx.fail(rule, s.fn, s.node, "guess_key is called from a function shared by producing and consuming operations: use_random cannot be decided", construct=f"shared guess_key site {s.fn.short}")
+    ctx.count(rule, n, 12, "guess_key call sites")
 
 
 def r14_3(ctx) -> None:
